@@ -32,14 +32,19 @@ Perms(S) == IF S = {} THEN {<<>>} ELSE UNION {{<<x>> \o p : p \in Perms(S \ {x})
 CONSTANTS NA, Rounds, PerRound, NotifyMode, ExitMode,
           TempApps,  \* application threads that use the blocking API style: a fresh queue per round
                      \* (CreateCommandQueue; Enqueue...; DrainCommandQueue), all in one shared context
+          DrainOnlyApps, \* application threads that own no queue and only call DrainCommandQueue on the queue of
+                     \* thread 1 (several threads may wait for the same queue)
           TwoPhaseApps \* application threads whose commands are two-phase (a memory copy through the DMA-path
                      \* middleware): started in one driver tick (IsRunning), requests sent to the GPU in later
                      \* ticks, completed (Dequeue) in the tick that reads the GPU's response
 
 Apps == 1..NA
-OwnApps == Apps \ TempApps
+OwnApps == Apps \ (TempApps \cup DrainOnlyApps)
+QOf(a) == IF a \in DrainOnlyApps THEN 1 ELSE a      \* the queue (named by its owner) a thread drains
 TPInit == [running |-> [a \in Apps |-> FALSE], stage |-> [a \in Apps |-> "none"],
-           awaitq |-> <<>>, sendq |-> <<>>, outq |-> <<>>, gpuIn |-> <<>>, cyclesLeft |-> -1, rspDeq |-> FALSE]
+           awaitq |-> <<>>, sendq |-> <<>>, outq |-> <<>>, gpuIn |-> <<>>,
+           \* the DMA-path middleware starts with cyclesLeft = 0 (Go zero value): its first tick reports progress
+           cyclesLeft |-> IF TwoPhaseApps = {} THEN -1 ELSE 0, rspDeq |-> FALSE]
 
 VARIABLES
   cmds,          \* [Apps -> Seq(Nat)]   pending commands of each queue
@@ -66,7 +71,7 @@ vars == <<cmds,issued,done,apc,round,left,sub,token,rpc,engineRunning,rerun,epc,
 
 Init ==
   /\ cmds = [a \in Apps |-> <<>>] /\ issued = [a \in Apps |-> <<>>] /\ done = [a \in Apps |-> <<>>]
-  /\ apc = [a \in Apps |-> IF a \in TempApps THEN "create" ELSE "enq"] /\ round = [a \in Apps |-> 1] /\ left = [a \in Apps |-> PerRound]
+  /\ apc = [a \in Apps |-> IF a \in TempApps THEN "create" ELSE IF a \in DrainOnlyApps THEN "subscribe" ELSE "enq"] /\ round = [a \in Apps |-> 1] /\ left = [a \in Apps |-> PerRound]
   /\ sub = [a \in Apps |-> FALSE] /\ token = [a \in Apps |-> FALSE]
   /\ rpc = "select" /\ engineRunning = FALSE /\ rerun = FALSE
   /\ epc = "none" /\ eq = 1 /\ eprog = FALSE /\ pauseLock = "free" /\ tickScheduled = FALSE
@@ -78,11 +83,9 @@ Init ==
 \* owner of q: a parked waiter is handed the signal and runs to its next
 \* yield point ("check"); otherwise a token is left (or dropped).
 NotifyEffect(q, apc0, token0) ==
-  IF sub[q]
-  THEN IF apc0[q] = "parked"
-       THEN <<[apc0 EXCEPT ![q] = "check"], token0>>
-       ELSE <<apc0, IF NotifyMode = "token" THEN [token0 EXCEPT ![q] = TRUE] ELSE token0>>
-  ELSE <<apc0, token0>>
+  LET listening(a) == QOf(a) = q /\ sub[a] IN
+  << [a \in Apps |-> IF listening(a) /\ apc0[a] = "parked" THEN "check" ELSE apc0[a]],
+     [a \in Apps |-> IF listening(a) /\ apc0[a] # "parked" /\ NotifyMode = "token" THEN TRUE ELSE token0[a]] >>
 
 \* ----------------------------------------------------------- application
 AppEnq(a) ==            \* Enqueue: append under commandsMutex
@@ -116,7 +119,7 @@ AppSignal(a) ==         \* d.enqueueSignal <- true  (unbuffered: rendezvous with
 
 AppCheck(a) ==          \* if q.NumCommand() == 0 { return }
   /\ apc[a] = "check"
-  /\ apc' = [apc EXCEPT ![a] = IF cmds[a] = <<>> THEN "unsub" ELSE "wait"]
+  /\ apc' = [apc EXCEPT ![a] = IF cmds[QOf(a)] = <<>> THEN "unsub" ELSE "wait"]
   /\ UNCHANGED <<cmds,issued,done,round,left,sub,token,rpc,engineRunning,rerun,epc,eq,eprog,pauseLock,tickScheduled,qorder,tp>>
 
 AppWait(a) ==           \* listener.Wait(): take a token or park
@@ -131,7 +134,7 @@ AppUnsub(a) ==          \* return from DrainCommandQueue (deferred Unsubscribe),
   /\ sub' = [sub EXCEPT ![a] = FALSE] /\ token' = [token EXCEPT ![a] = FALSE]
   /\ IF round[a] < Rounds
      THEN /\ round' = [round EXCEPT ![a] = @ + 1] /\ left' = [left EXCEPT ![a] = PerRound]
-          /\ apc' = [apc EXCEPT ![a] = IF a \in TempApps THEN "create" ELSE "enq"]
+          /\ apc' = [apc EXCEPT ![a] = IF a \in TempApps THEN "create" ELSE IF a \in DrainOnlyApps THEN "subscribe" ELSE "enq"]
      ELSE /\ round' = round /\ left' = left /\ apc' = [apc EXCEPT ![a] = "returned"]
   /\ UNCHANGED <<cmds,issued,done,rpc,engineRunning,rerun,epc,eq,eprog,pauseLock,tickScheduled,qorder,tp>>
 
@@ -315,7 +318,7 @@ IsPrefix(s, t) == Len(s) <= Len(t) /\ \A i \in 1..Len(s) : s[i] = t[i]
 FIFO == \A a \in Apps : IsPrefix(done[a], issued[a])
 FIFOStep == [][\A a \in Apps : IsPrefix(done[a], done'[a])]_vars
 \* DrainCommandQueue returns only when every earlier command of the queue has completed
-DrainSound == \A a \in Apps : (apc[a] \in {"returned", "create", "creating"} \/ (apc[a] = "enq" /\ left[a] = PerRound)) => done[a] = issued[a]
+DrainSound == \A a \in Apps \ DrainOnlyApps : (apc[a] \in {"returned", "create", "creating"} \/ (apc[a] = "enq" /\ left[a] = PerRound)) => done[a] = issued[a]
 \* one command of a queue at a time: a command is started only when no command of its queue is running, and the
 \* running one is the head of the queue until its response has been read
 OneAtATime == \A a \in Apps : tp.running[a] => (cmds[a] # <<>> /\ tp.stage[a] \in {"awaiting", "tosend", "sent", "atgpu", "answered"})
